@@ -324,3 +324,176 @@ func typePairRule(c *Ctx, rule string) {
 	}
 	c.Stats[rule+".types"] = n
 }
+
+// ---------------------------------------------------------------------------
+// T-COWRITE: a cursor field and the state that must follow it (another field,
+// or the position of a stream). Wherever an operation assigns the cursor an
+// absolute value (one that is not computed from the cursor's own previous
+// value: a repositioning, not a step), the same function performs the
+// required action on the same path: in a block that dominates the assignment
+// or is reachable from it. Constructors (fresh roots) are not repositionings.
+
+type coReq struct {
+	Desc string
+	Is   func(ins ssa.Instruction) bool
+}
+
+func reqStoreTo(p *Prog, f *types.Var) (coReq, bool) {
+	return coReq{Desc: "assigning " + p.FieldName(f), Is: func(ins ssa.Instruction) bool {
+		st, ok := ins.(*ssa.Store)
+		if !ok {
+			return false
+		}
+		fs, _, elem := fieldChain(st.Addr)
+		return len(fs) > 0 && !elem && fs[len(fs)-1] == f
+	}}, f != nil
+}
+
+// reqCallOn: a call of one of the methods on the object held in typ.field.
+func reqCallOn(p *Prog, f *types.Var, methods ...string) (coReq, bool) {
+	ms := map[string]bool{}
+	for _, m := range methods {
+		ms[m] = true
+	}
+	return coReq{Desc: "calling " + strings.Join(methods, "/") + " on " + p.FieldName(f), Is: func(ins ssa.Instruction) bool {
+		call, ok := ins.(ssa.CallInstruction)
+		if !ok {
+			return false
+		}
+		cc := call.Common()
+		var recv ssa.Value
+		name := ""
+		if cc.IsInvoke() {
+			recv, name = cc.Value, cc.Method.Name()
+		} else if callee := cc.StaticCallee(); callee != nil && callee.Signature.Recv() != nil && len(cc.Args) > 0 {
+			recv, name = cc.Args[0], fnName(callee)
+		}
+		if recv == nil || !ms[name] {
+			return false
+		}
+		fs, _, _ := fieldChain(recv)
+		return len(fs) > 0 && fs[len(fs)-1] == f
+	}}, f != nil
+}
+
+func coWriteRule(c *Ctx, rule, role string, tf *types.Var, req coReq, reqOK bool, exempt map[string]string, why string) {
+	p := c.P
+	if !c.Anchor(rule, role, tf != nil) || !c.Anchor(rule, role+": "+req.Desc, reqOK) {
+		return
+	}
+	trigName := p.FieldName(tf)
+	n := 0
+	for _, fn := range p.ModuleSSAFuncs() {
+		if fn.Origin() != nil {
+			continue
+		}
+		var trig []*ssa.Store
+		var reqs []ssa.Instruction
+		allInstrs(fn, false, func(_ *ssa.Function, ins ssa.Instruction) {
+			if req.Is(ins) {
+				reqs = append(reqs, ins)
+			}
+			st, ok := ins.(*ssa.Store)
+			if !ok {
+				return
+			}
+			fs, root, elem := fieldChain(st.Addr)
+			if len(fs) == 0 || elem || fs[len(fs)-1] != tf || isFreshRoot(root) {
+				return
+			}
+			for _, o := range Origins(st.Val, OriginOpts{ThroughBinOp: true}) {
+				if o.Kind == OrgField && o.Field == tf {
+					return // a step relative to the previous position
+				}
+			}
+			trig = append(trig, st)
+		})
+		for i, t := range trig {
+			n++
+			key := FuncKey(fn) + ": " + role + " repositioned, " + req.Desc
+			if i > 0 {
+				key += " #" + itoa(i)
+			}
+			if r, ok := exempt[FuncKey(fn)]; ok {
+				c.Pass(rule, key, t.Pos(), "exempt: %s", r)
+				continue
+			}
+			ok := false
+			reach := reachableAvoidingSet(t.Block(), nil, nil)
+			for _, r := range reqs {
+				if reach[r.Block()] || dominatesBlock(r.Block(), t.Block()) {
+					ok = true
+				}
+			}
+			c.Check(rule, key, t.Pos(), ok, FuncKey(fn)+" assigns "+trigName+" ("+role+") a new position without "+req.Desc+" on the same path: "+why)
+		}
+	}
+	c.Stats[rule+".repositionings"] += n
+}
+
+func dominatesBlock(a, b *ssa.BasicBlock) bool { return a != nil && b != nil && a.Dominates(b) }
+
+// stepFields: the integer fields that fn (and the same-package functions it
+// calls statically, to the given depth) advance by one (`x.f++`). Used to
+// find a cursor by its role rather than by its name.
+func stepFields(p *Prog, fn *ssa.Function, depth int, seen map[*ssa.Function]bool, out map[*types.Var]bool) {
+	if fn == nil || fn.Blocks == nil || seen[fn] || depth < 0 {
+		return
+	}
+	seen[fn] = true
+	allInstrs(fn, false, func(_ *ssa.Function, ins ssa.Instruction) {
+		switch x := ins.(type) {
+		case *ssa.Store:
+			fs, _, elem := fieldChain(x.Addr)
+			if len(fs) == 0 || elem {
+				return
+			}
+			b, ok := x.Val.(*ssa.BinOp)
+			if !ok || b.Op != token.ADD {
+				return
+			}
+			k, ok := b.Y.(*ssa.Const)
+			if !ok || k.Value == nil || k.Value.ExactString() != "1" {
+				return
+			}
+			ld, ok := b.X.(*ssa.UnOp)
+			if !ok || ld.Op != token.MUL {
+				return
+			}
+			ls, _, _ := fieldChain(ld.X)
+			if len(ls) > 0 && ls[len(ls)-1] == fs[len(fs)-1] {
+				out[fs[len(fs)-1]] = true
+			}
+		case ssa.CallInstruction:
+			if callee := x.Common().StaticCallee(); callee != nil && inModule(callee) && fnPkg(callee) == fnPkg(fn) {
+				stepFields(p, callee, depth-1, seen, out)
+			}
+		}
+	})
+}
+
+func ownerStruct(f *types.Var, p *Prog) *types.Named {
+	for _, pkg := range p.Mod {
+		sc := pkg.Types.Scope()
+		for _, n := range sc.Names() {
+			tn, ok := sc.Lookup(n).(*types.TypeName)
+			if !ok {
+				continue
+			}
+			named, ok := tn.Type().(*types.Named)
+			if !ok {
+				continue
+			}
+			st, ok := named.Underlying().(*types.Struct)
+			if !ok {
+				continue
+			}
+			for i := 0; i < st.NumFields(); i++ {
+				if st.Field(i).Origin() == f {
+					return named
+				}
+			}
+		}
+	}
+	return nil
+}
